@@ -55,6 +55,7 @@ def judge(doc, fmt, render_kw=None):
 
 
 def evaluate(ctx: Ctx, doc, fmt, part: Partial | None = None, render_kw=None):
+    model.validate(doc)
     feats = model.features(doc)
     fails = judge(doc, fmt, render_kw)
     e_body = sum(len(x) for x in model.expect(doc, PROFILES[fmt]).per_unit)
